@@ -45,6 +45,8 @@ var nvParsers = []nvParser{
 	{"regexp:regexp-compile", func(a string) string { return "(regexp:regexp-match? (regexp:regexp-compile " + a + ") \"abcd 12.5\")" }},
 	{"s:regexp", func(a string) string { return "(s:validate (s:deftype \"nv\" s:string (s:regexp " + a + ")) \"abcd\")" }},
 	{"format-string", func(a string) string { return "(format-string " + a + " 1 \"x\")" }},
+	{"assert/message", func(a string) string { return "(assert false " + a + " 1 \"x\")" }},
+	{"format-string/no-values", func(a string) string { return "(format-string " + a + ")" }},
 	{"to-int", func(a string) string { return "(to-int " + a + ")" }},
 	{"to-float", func(a string) string { return "(to-float " + a + ")" }},
 	{"load-string", func(a string) string { return "(load-string " + a + ")" }},
@@ -58,6 +60,7 @@ var nvBases = []string{
 	`{"a":[1,2.5e3,{"b":null,"c":"\u00e9\n"}],"d":true}`, `[1,-0.0,1e-7,"x"]`, `"\ud83d\ude00"`, `9007199254740993`, `{"k":-12.5E+2}`,
 	"YWJjZA==", "YWJj", "a-_b",
 	"{} and {}", "{{}} {}",
+	"{0}", "{1} {0}", "{9223372036854775807}", "{9223372036854775808}", "{18446744073709551616}", "{-1}", "{00000000000000000001}", "{1e3}", "{ 1 }", "{4294967296}",
 	"^a(b|c)*d[e-g]{1,3}$", "(?i)x+?", `\d+\.\d*`,
 	"12", "-9223372036854775808", "0x1F", "1.5e10", "-.5", "1_000",
 	"(+ 1 (car '(2 3)))", "'(a \"s\" #^(+ % 1) ; c\n b)", "pkg:name",
@@ -111,6 +114,9 @@ func checkNearValid(n NearValid, ctx *vcommon.Ctx) *vcommon.Failure {
 	rt, cancel := newRuntime()
 	defer cancel()
 	edits := nvEdits([]byte(nvBases[n.Base]), n.Pos)
+	if n.Pos == 0 {
+		edits = append(edits, []byte(nvBases[n.Base])) // the base itself, once
+	}
 	ctx.Class("parser/" + p.name)
 	if n.Pos > 0 && n.Pos < len(nvBases[n.Base]) {
 		ctx.NonTrivial(fmt.Sprintf("%d/%d/%d", n.Fn, n.Base, n.Pos))
